@@ -12,7 +12,7 @@ REAL = common.REAL
 SIMULATED = common.SIMULATED
 ASSUMPTIONS = [
     "the oracle for 'what was computed' is the dict run_games returned inside the same CLI invocation, captured by wrapping the module attribute main() itself resolves",
-    "input stems are [A-Za-z0-9_]+ (the property's alphabet); game names [A-Za-z0-9_]+ without X / X_no_prune pairs",
+    "input stems are [A-Za-z0-9_]+ (the property's alphabet); game and action names are Python identifiers-like words over letters (a few non-ASCII), digits and underscores, without X / X_no_prune pairs; files are UTF-8 and the checks run with PYTHONUTF8=1",
     "under an injected OSError, interrupt or kill the only relaxation is that the invocation may fail; a normal exit must leave a faithful report; the next clean run must repair whatever a failed one left",
     "the report grammar is the current one: blocks introduced by a line of 160 '=', lines 'label : value' with the 14 current labels",
 ]
@@ -23,7 +23,7 @@ RULE = ("run = pool of named games + 3-12 ops from {write input file in one of 5
         "or an overwrite of a different earlier report, or a fired I/O fault/interrupt; distinct = hash of (op shapes, game hashes, faults fired)")
 
 STEMS = ["in1", "My_Games_2", "x", "robot_1_w2_l2_r6", "A", "paper_games", "t_0"]
-GNAMES = ["g", "game_a", "game_b", "X1", "fig_5_5", "a", "b2", "Robot_47", "test", "n0", "big_reward", "z_9", "game_c", "G_", "_", "0", "Z"*3 + "_" + "9"*40, "no_prune", "UPPER_lower_123"]
+GNAMES = ["g", "game_a", "game_b", "X1", "fig_5_5", "a", "b2", "Robot_47", "test", "n0", "big_reward", "z_9", "game_c", "G_", "_", "0", "Z"*3 + "_" + "9"*40, "no_prune", "UPPER_lower_123", "dise\u00f1o_2", "x_no_prune_v2"]
 DIRS = ["inputs", "inputs", "inputs", "other", "inputs/nested", "ABS"]
 EXTS = [".py", ".py", ".py", ".txt", ""]
 ENTRY_KEYS = ("msg", "n_states", "n_transitions", "n_iterations_reach", "n_iterations_rew",
@@ -39,7 +39,23 @@ def fixed_specs(tier, ctx):
     return []
 
 
+def _gen_marathon(rng):
+    pool = []
+    for i in range(3):
+        pool.append({"name": "m%d" % i, "desc": enc(pools.tiny_game(rng) if i else pools.stopping_game(rng, 4, 6)), "tag": "marathon"})
+    pth = ("inputs", "long_session", ".py")
+    opl = []
+    for _ in range(rng.randint(60, 150)):
+        if rng.random() < 0.3 or not opl:
+            opl.append({"op": "write_input", "dir": pth[0], "stem": pth[1], "ext": pth[2],
+                        "games": rng.sample(range(3), rng.randint(1, 3)), "style": rng.choice(textstyle.STYLES), "seed": rng.randint(0, 999)})
+        opl.append({"op": "lib", "dir": pth[0], "stem": pth[1], "ext": pth[2], "save": rng.random() < 0.8})
+    return {"cfg": {"klass": "marathon"}, "pool": pool, "ops": opl}
+
+
 def gen(rng, tier, ctx):
+    if rng.random() < 0.012:
+        return _gen_marathon(rng)
     klass = rng.choices(["plain", "faulty"], [0.5, 0.5])[0]
     n = rng.randint(1, 6)
     names = rng.sample(GNAMES, n)
@@ -130,7 +146,10 @@ def gen(rng, tier, ctx):
             if (op.get("fs_faults") or op.get("interrupt")) and rng.random() < 0.8:
                 opl.append({"op": "cli", "dir": pth[0], "stem": pth[1], "ext": pth[2], "save": True,
                             "entropy": rng.randint(0, 2 ** 32)})
-    return {"cfg": {"klass": klass}, "pool": pool, "ops": opl}
+    cfg = {"klass": klass}
+    if rng.random() < 0.12:
+        cfg["locale"] = rng.choice(["cp1252", "cp1252", "ascii", "latin-1"])     # default text encoding of the machine
+    return {"cfg": cfg, "pool": pool, "ops": opl}
 
 
 STEM_ALPHABET = "abcdefghijklmnopqrstuvwxyzABCDEFGHIJKLMNOPQRSTUVWXYZ0123456789_" + "pytxPY_"
@@ -246,6 +265,9 @@ def execute(spec, w, ctx):
             ok = ru["status"] == "ok"
         usable[i] = (ok, (rp.get("steps") or 0) * 2)
     w.restart(0)
+    w.fs.encoding = spec.get("cfg", {}).get("locale") or "utf-8"
+    if w.fs.encoding != "utf-8":
+        w.fired("locale-" + w.fs.encoding)
 
     def run_cli(op, cfg, cap):
         path, rel = _path(w, op)
@@ -275,6 +297,9 @@ def execute(spec, w, ctx):
             path, rel = _path(w, op)
             denoted_now = {pool[g]["name"]: dec(pool[g]["desc"]) for g in games}
             text = textstyle.render(denoted_now, op["style"], op.get("seed", 0))
+            if not w.fs.encodable(text):
+                discards["not-encodable-in-locale"] = discards.get("not-encodable-in-locale", 0) + 1
+                continue
             w.fs.write_text(rel, text)
             files[rel] = {"games": denoted_now, "steps": sum(usable[g][1] for g in games), "style": op["style"],
                           "seed": op.get("seed", 0), "len": len(text)}
@@ -381,7 +406,7 @@ def execute(spec, w, ctx):
             if out["status"] == "interrupt":
                 w.probe("interrupt-in:" + str(out.get("site", "?")).split(":")[0])
                 try:
-                    txt = w.fs.read_bytes("outputs/%s.txt" % op["stem"]).decode()
+                    txt = w.fs.read_text("outputs/%s.txt" % op["stem"])
                     report.parse(txt)
                 except report.ReportError:
                     w.probe("torn-report-left-behind")
@@ -420,7 +445,7 @@ def _judge(i_op, op, out, cap, before, w, denoted, clean, inputs=()):
             if others:
                 w.probe("auxiliary-file-written")   # a log/cache next to the report is not what C16 forbids
             try:
-                text = after[target].decode("utf-8")
+                text = after[target].decode(w.fs.encoding)
             except UnicodeDecodeError as e:
                 return viol("I16.2", i_op, "%s is not text: %s" % (target, e), "report-unparseable")
             v = check_report(i_op, text, ret, stem)
